@@ -506,7 +506,10 @@ fn header_passthrough(alg: Alg, fmt: Fmt, l: &mut Local) {
     use std::sync::{Arc, Mutex};
     // (iss, kid) pairs in which the kid is itself an identifier related to the issuer's: a DID URL of the issuer,
     // a DID URL of a party whose DID extends the issuer's, a key URL below / beside the issuer's URL, a prefix twin
-    let pairs: [(&str, &str); 9] = [
+    let pairs: [(&str, &str); 12] = [
+        ("https://Issuer.Example.COM/Tenant-A", "key-1"),
+        ("HTTPS://I.EXAMPLE/", "https://i.example/#k"),
+        (" https://i.example ", "k"),
         (gen::ISS, "key-1"),
         ("did:web:issuer.example", "did:web:issuer.example#key-1"),
         ("did:web:issuer.example", "did:web:issuer.example:users:mallory#key-1"),
